@@ -955,15 +955,30 @@ def normal_form_rules(R, lib, zs):
     if not (glo >= 0 and ghi <= 1439):
         R.violation('R2', f.name, f.loc, 'C++ leaves minutes in [%s, %s] while the Python reference always canonicalises to [0, 86399] s: the two '
                     'implementations order date tuples differently around local midnight' % (glo, ghi))
+    # Python: _normalize_date_tuple interpreted (E-SEQ) on date tuples whose seconds run from two days before to two days after the
+    # date, at month, year and leap-day boundaries: the result is the same instant with 0 <= seconds < 86400 and the suffix kept
+    import datetime as _dtm
+    from .pyeval import PyEval, Raised as PRaised
     pf = zs.fn('ZoneSpecifier._normalize_date_tuple')
-    src = ast.unparse(pf.node)
-    calls = {ast.unparse(n.func) for n in ast.walk(pf.node) if isinstance(n, ast.Call)}
-    ok = 'datetime' in calls and 'timedelta' in calls and 'hms_to_seconds' in calls
-    # the returned tuple must be built from the shifted datetime
-    rets = [n for n in ast.walk(pf.node) if isinstance(n, ast.Return) and n.value is not None and 'st.year' in ast.unparse(n.value)]
-    R.instance('R2', 'ZoneSpecifier._normalize_date_tuple', pf.loc)
-    if not (ok and rets):
-        R.violation('R2', 'ZoneSpecifier._normalize_date_tuple', pf.loc, 'the Python side no longer canonicalises through datetime + timedelta')
+    pev = PyEval(R.cfg, max_steps=2000000)
+    DT = pev.global_name(zs, 'DateTuple', pf.loc)
+    bad, n = None, 0
+    for (y, m, d) in ((2000, 12, 31), (2001, 1, 1), (2001, 2, 28), (2004, 2, 29), (2004, 3, 1), (2001, 6, 15)):
+        for ss in (-172800, -90000, -86400, -3600, -1, 0, 1, 43200, 86399, 86400, 90000, 172805):
+            for sfx in ('w', 'u'):
+                try:
+                    got = pev.call(zs, 'ZoneSpecifier._normalize_date_tuple', [pev.apply(DT, [], dict(y=y, M=m, d=d, ss=ss, f=sfx))])
+                    got = tuple(got) if isinstance(got, tuple) else got
+                except PRaised as r_:
+                    got = 'raises %s' % r_.what
+                n += 1
+                w = _dtm.datetime(y, m, d) + _dtm.timedelta(seconds=ss)
+                want = (w.year, w.month, w.day, w.hour * 3600 + w.minute * 60 + w.second, sfx)
+                if got != want and bad is None:
+                    bad = '(%d-%02d-%02d, %d s, %s) is normalised to %s, expected %s (the same instant with 0 <= seconds < 86400)' % (y, m, d, ss, sfx, got, want)
+    R.instance('R2', 'ZoneSpecifier._normalize_date_tuple', pf.loc, '%d date tuples interpreted' % n)
+    if bad:
+        R.violation('R2', 'ZoneSpecifier._normalize_date_tuple', pf.loc, 'the Python side does not canonicalise date tuples: ' + bad)
 
 
 SELFTEST = [
@@ -1003,6 +1018,12 @@ SELFTEST = [
     dict(id='python-lookup-wrong-field', file='tools/zonedb/zone_specifier.py', find='            start_time = transition.startDateTime', replace='            start_time = transition.transitionTime', rule='R1-loop'),
     dict(id='python-lookup-stops-on-equal', file='tools/zonedb/zone_specifier.py', find='            if start_time > dt_time:\n                break', replace='            if start_time >= dt_time:\n                break', rule='R1-loop'),
     dict(id='cpp-normalise-only-whole-days', file='src/ace_time/ExtendedZoneProcessor.h', find='      while (dt->minutes < 0) {', replace='      while (dt->minutes <= -kOneDayAsMinutes) {', rule='R2'),
+    dict(id='python-normalise-by-divmod-silent', file='tools/zonedb/zone_specifier.py',
+         find='            st = datetime(tt.y, tt.M, tt.d, 0, 0, 0)\n            delta = timedelta(seconds=tt.ss)\n            st += delta\n            secs = hms_to_seconds(st.hour, st.minute, st.second)\n            return DateTuple(y=st.year, M=st.month, d=st.day, ss=secs, f=tt.f)\n',
+         replace='            days, secs = divmod(tt.ss, 86400)\n            st = datetime(tt.y, tt.M, tt.d, 0, 0, 0) + timedelta(days=days)\n            return tt._replace(y=st.year, M=st.month, d=st.day, ss=secs)\n', expect='silent'),
+    dict(id='python-normalise-by-divmod-forgets-the-year', file='tools/zonedb/zone_specifier.py',
+         find='            st = datetime(tt.y, tt.M, tt.d, 0, 0, 0)\n            delta = timedelta(seconds=tt.ss)\n            st += delta\n            secs = hms_to_seconds(st.hour, st.minute, st.second)\n            return DateTuple(y=st.year, M=st.month, d=st.day, ss=secs, f=tt.f)\n',
+         replace='            days, secs = divmod(tt.ss, 86400)\n            st = datetime(tt.y, tt.M, tt.d, 0, 0, 0) + timedelta(days=days)\n            return tt._replace(M=st.month, d=st.day, ss=secs)\n', rule='R2'),
     dict(id='python-basic-selector-adds-prior-despite-start', file='tools/zonedb/zone_specifier.py',
          find="        if not results.get('startTransitionFound'):\n            prior_transition = results.get('latestPriorTransition')\n            if not prior_transition:\n                raise Exception(\n                    'Prior transition not found; should not happen')\n",
          replace="        prior_transition = results.get('latestPriorTransition')\n        if prior_transition:\n", rule='R5'),
